@@ -443,6 +443,14 @@ tb_done:
 		rc = KSI_Signature_getSigningTime(s, &t); if (rc == KSI_OK && t) kx_out(" time=%llu", (unsigned long long)KSI_Integer_getUInt64(t)); else kx_out(" time=ERR%d", rc);
 		return 0;
 	}
+	if (!strcmp(c0, "sigidentity")) { /* sigidentity <s>: KSI_Signature_getAggregationHashChainIdentity; prints the number of identities and their client ids */
+		KSI_HashChainLinkIdentityList *il = NULL; size_t i; int rc = KSI_Signature_getAggregationHashChainIdentity(sigs[atoi(tok[1])], &il);
+		if (rc != KSI_OK && il != NULL) kx_out(" objonerr=1");
+		if (rc == KSI_OK) { kx_out(" n=%zu ids=", KSI_HashChainLinkIdentityList_length(il));
+			for (i = 0; i < KSI_HashChainLinkIdentityList_length(il); i++) { KSI_HashChainLinkIdentity *id = NULL; KSI_Utf8String *cid = NULL; KSI_HashChainLinkIdentityList_elementAt(il, i, &id); KSI_HashChainLinkIdentity_getClientId(id, &cid);
+				kx_out("%s%s", i ? "," : "", cid ? KSI_Utf8String_cstr(cid) : "?"); } }
+		KSI_HashChainLinkIdentityList_free(il); return rc;
+	}
 	if (!strcmp(c0, "verify")) return cmd_verify();
 	if (!strcmp(c0, "pubfileparse")) {
 		size_t n; unsigned char *b = kx_hexarg(tok[3], &n); KSI_PublicationsFile *p = NULL; int pi = atoi(tok[2]);
